@@ -61,7 +61,7 @@ package libinjection
 //@   ensures  @mono old(h.pos) <= h.pos
 //@   rank     1
 //@   ensures  result
-//@   ensures  [C17] @first_terminator postBogus(h, old(h.pos))
+//@   ensures  [C17 C07] @first_terminator postBogus(h, old(h.pos))
 //@   cost     <= cpos(h) - old(h.pos) + 2
 
 // ---- <% .. %> : ends at the first "%>"
@@ -77,7 +77,7 @@ package libinjection
 //@   ensures  @mono old(h.pos) <= h.pos
 //@   rank     1
 //@   ensures  result
-//@   ensures  [C17] @first_terminator postBogus2(h, old(h.pos))
+//@   ensures  [C17 C07] @first_terminator postBogus2(h, old(h.pos))
 //@   loop 1 invariant old(h.pos) <= pos && pos <= h.len && unchangedH(h)
 //@   loop 1 invariant [C17] forall k in [old(h.pos), pos): !pctAt(h, k)
 //@   loop 1 decreases h.len - pos
@@ -97,7 +97,7 @@ package libinjection
 //@   ensures  @mono old(h.pos) <= h.pos
 //@   rank     1
 //@   ensures  result
-//@   ensures  [C17] @first_terminator postCData(h, old(h.pos))
+//@   ensures  [C17 C07] @first_terminator postCData(h, old(h.pos))
 //@   loop 1 invariant old(h.pos) <= pos && pos <= h.len && unchangedH(h)
 //@   loop 1 invariant [C17] forall k in [old(h.pos), pos): !cdEndAt(h, k)
 //@   loop 1 decreases h.len - pos
@@ -131,7 +131,7 @@ package libinjection
 //@   ensures  @mono old(h.pos) <= h.pos
 //@   rank     1
 //@   ensures  result && wfH(h) && h.isClose == old(h.isClose)
-//@   ensures  [C17] @terminator postComment(h, old(h.pos))
+//@   ensures  [C17 C07] @terminator postComment(h, old(h.pos))
 //@   loop 1 invariant old(h.pos) <= pos && pos <= h.len && unchangedH(h)
 //@   loop 1 decreases h.len - pos
 //@   loop 2 invariant 1 <= offset && pos + index + offset <= h.len && unchangedH(h)
@@ -152,7 +152,7 @@ package libinjection
 //@   ensures  @mono old(h.pos) <= h.pos
 //@   rank     1
 //@   ensures  result && wfH(h) && h.isClose == old(h.isClose)
-//@   ensures  [C17] @first_terminator postDoctype(h, old(h.pos))
+//@   ensures  [C17 C07] @first_terminator postDoctype(h, old(h.pos))
 //@   cost     <= cpos(h) - old(h.pos) + 2
 
 //@ spec doctypeAt(h *h5State, p int) bool = p + 7 <= h.len && up(h.s[p]) == 'D' && up(h.s[p+1]) == 'O' && up(h.s[p+2]) == 'C' &&
@@ -164,11 +164,11 @@ package libinjection
 //@   ensures  @mono old(h.pos) <= h.pos
 //@   rank     8
 //@   ensures  result && wfH(h) && h.isClose == old(h.isClose) && (h.state == h.stateEOF || h.state == h.stateData)
-//@   ensures  [C17] @stream streamOK(h, old(h.pos)) && potQ(h) >= old(h.pos) + 1
-//@   ensures  [C17] @doctype doctypeAt(h, old(h.pos)) ==> postDoctype(h, old(h.pos))
-//@   ensures  [C17] @cdata   cdataOpenAt(h, old(h.pos)) ==> postCData(h, old(h.pos) + 7)
-//@   ensures  [C17] @comment old(h.pos) + 2 <= h.len && h.s[old(h.pos)] == '-' && h.s[old(h.pos)+1] == '-' ==> postComment(h, old(h.pos) + 2)
-//@   ensures  [C17] @bogus   (old(h.pos) >= h.len || (h.s[old(h.pos)] < 128 && !(h.s[old(h.pos)] in {'d', 'D', '[', '-'}))) ==> postBogus(h, old(h.pos))
+//@   ensures  [C17 C07] @stream streamOK(h, old(h.pos)) && potQ(h) >= old(h.pos) + 1
+//@   ensures  [C17 C07] @doctype doctypeAt(h, old(h.pos)) ==> postDoctype(h, old(h.pos))
+//@   ensures  [C17 C07] @cdata   cdataOpenAt(h, old(h.pos)) ==> postCData(h, old(h.pos) + 7)
+//@   ensures  [C17 C07] @comment old(h.pos) + 2 <= h.len && h.s[old(h.pos)] == '-' && h.s[old(h.pos)+1] == '-' ==> postComment(h, old(h.pos) + 2)
+//@   ensures  [C17 C07] @bogus   (old(h.pos) >= h.len || (h.s[old(h.pos)] < 128 && !(h.s[old(h.pos)] in {'d', 'D', '[', '-'}))) ==> postBogus(h, old(h.pos))
 //@   cost     <= 3 * (cpos(h) - old(h.pos)) + 40
 
 //@ func (*h5State).stateSelfClosingStartTag
@@ -178,8 +178,8 @@ package libinjection
 //@   rank     (h.pos < h.len && h.s[h.pos] != '>') ? 5 : 1
 //@   ensures  wfH(h) && h.isClose == old(h.isClose) && old(h.pos) <= h.pos
 //@   ensures  !result ==> h.pos == h.len && h.state == old(h.state)
-//@   ensures  [C17] @stream result ==> streamOK(h, old(h.pos) - 1) && potQ(h) >= old(h.pos) + 1
-//@   ensures  [C17] @selfclose old(h.pos) < h.len && h.s[old(h.pos)] == '>' ==> result && h.tokenType == html5TypeTagNameSelfClose &&
+//@   ensures  [C17 C07] @stream result ==> streamOK(h, old(h.pos) - 1) && potQ(h) >= old(h.pos) + 1
+//@   ensures  [C17 C07] @selfclose old(h.pos) < h.len && h.s[old(h.pos)] == '>' ==> result && h.tokenType == html5TypeTagNameSelfClose &&
 //@                 tokOff(h) == old(h.pos) - 1 && h.tokenLen == 2 && h.pos == old(h.pos) + 1 && h.state == h.stateData
 //@   ensures  [C15] @safe noLtEq(h) && result ==> safeState(h) && safeTok(h)
 //@   cost     <= 3 * (cpos(h) - old(h.pos)) + ((old(h.pos) < h.len && h.s[old(h.pos)] != '>') ? 44 : 6)
@@ -190,7 +190,7 @@ package libinjection
 //@   ensures  @mono old(h.pos) <= h.pos
 //@   rank     1
 //@   ensures  result && wfH(h) && !h.isClose
-//@   ensures  [C17] @token h.tokenType == html5TypeTagNameClose && tokOK(h) && tokOff(h) == old(h.pos) && h.tokenLen == 1 && h.pos == old(h.pos) + 1 &&
+//@   ensures  [C17 C07] @token h.tokenType == html5TypeTagNameClose && tokOK(h) && tokOff(h) == old(h.pos) && h.tokenLen == 1 && h.pos == old(h.pos) + 1 &&
 //@                 h.state == (h.pos < h.len ? h.stateData : h.stateEOF)
 //@   ensures  [C15] @safe safeState(h) && safeTok(h)
 //@   cost     <= 2
@@ -203,11 +203,11 @@ package libinjection
 //@   ensures  @mono old(h.pos) <= h.pos
 //@   rank     1
 //@   ensures  result && wfH(h)
-//@   ensures  [C17] @stream streamOK(h, old(h.pos)) && potQ(h) >= old(h.pos) + 1 && tokOff(h) == old(h.pos)
-//@   ensures  [C17] @span forall k in [old(h.pos), old(h.pos) + h.tokenLen): !tagNameEnd(h.s[k])
-//@   ensures  [C17] @end (old(h.pos) + h.tokenLen < h.len ==> tagNameEnd(h.s[old(h.pos) + h.tokenLen])) &&
+//@   ensures  [C17 C07] @stream streamOK(h, old(h.pos)) && potQ(h) >= old(h.pos) + 1 && tokOff(h) == old(h.pos)
+//@   ensures  [C17 C07] @span forall k in [old(h.pos), old(h.pos) + h.tokenLen): !tagNameEnd(h.s[k])
+//@   ensures  [C17 C07] @end (old(h.pos) + h.tokenLen < h.len ==> tagNameEnd(h.s[old(h.pos) + h.tokenLen])) &&
 //@                 (old(h.pos) + h.tokenLen == h.len ==> h.state == h.stateEOF && h.tokenType == html5TypeTagNameOpen)
-//@   ensures  [C17] @type h.tokenType == html5TypeTagNameOpen || (h.tokenType == html5TypeTagClose && old(h.isClose) && h.state == h.stateData)
+//@   ensures  [C17 C07] @type h.tokenType == html5TypeTagNameOpen || (h.tokenType == html5TypeTagClose && old(h.isClose) && h.state == h.stateData)
 //@   loop 1 invariant old(h.pos) <= pos && pos <= h.len && unchangedH(h)
 //@   loop 1 invariant [C17] forall k in [old(h.pos), pos): !tagNameEnd(h.s[k])
 //@   loop 1 decreases h.len - pos
@@ -221,7 +221,7 @@ package libinjection
 //@   rank     8
 //@   ensures  wfH(h)
 //@   ensures  !result ==> h.pos == old(h.pos) && h.state == old(h.state) && old(h.pos) >= h.len
-//@   ensures  [C17] @stream result ==> streamOK(h, old(h.pos)) && potQ(h) >= old(h.pos) + 1
+//@   ensures  [C17 C07] @stream result ==> streamOK(h, old(h.pos)) && potQ(h) >= old(h.pos) + 1
 //@   cost     <= 3 * (cpos(h) - old(h.pos)) + 24
 
 //@ func (*h5State).stateTagOpen
@@ -231,7 +231,7 @@ package libinjection
 //@   rank     h.pos == 0 ? 11 : 9
 //@   ensures  wfH(h)
 //@   ensures  !result ==> h.pos >= h.len
-//@   ensures  [C17] @stream result ==> streamOK(h, old(h.pos) - 1) && potQ(h) >= old(h.pos) + 1
+//@   ensures  [C17 C07] @stream result ==> streamOK(h, old(h.pos) - 1) && potQ(h) >= old(h.pos) + 1
 //@   cost     <= 3 * (cpos(h) - old(h.pos)) + (old(h.pos) == 0 ? 100 : 60)
 
 // ---- data: text up to the first '<'
@@ -241,8 +241,8 @@ package libinjection
 //@   ensures  @mono old(h.pos) <= h.pos
 //@   rank     (h.pos < h.len && h.s[h.pos] == '<') ? 10 : 1
 //@   ensures  wfH(h)
-//@   ensures  [C17] @stream result ==> streamOK(h, old(h.pos)) && potQ(h) >= old(h.pos) + 2
-//@   ensures  [C17] @text (old(h.pos) < h.len && h.s[old(h.pos)] != '<') ==> result && h.tokenType == html5TypeDataText && tokOff(h) == old(h.pos) &&
+//@   ensures  [C17 C07] @stream result ==> streamOK(h, old(h.pos)) && potQ(h) >= old(h.pos) + 2
+//@   ensures  [C17 C07] @text (old(h.pos) < h.len && h.s[old(h.pos)] != '<') ==> result && h.tokenType == html5TypeDataText && tokOff(h) == old(h.pos) &&
 //@                 h.tokenLen >= 1 && (forall k in [old(h.pos), old(h.pos) + h.tokenLen): h.s[k] != '<') &&
 //@                 ((h.state == h.stateEOF && old(h.pos) + h.tokenLen == h.len) ||
 //@                  (h.state == h.stateTagOpen && h.s[old(h.pos) + h.tokenLen] == '<' && h.pos == old(h.pos) + h.tokenLen + 1))
@@ -256,9 +256,9 @@ package libinjection
 //@   ensures  @mono old(h.pos) <= h.pos
 //@   rank     1
 //@   ensures  result && wfH(h) && h.isClose == old(h.isClose) && h.tokenType == html5TypeAttrValue
-//@   ensures  [C17] @stream streamOK(h, old(h.pos)) && tokOff(h) == old(h.pos) && potQ(h) >= old(h.pos) + 1
-//@   ensures  [C17] @span forall k in [old(h.pos), old(h.pos) + h.tokenLen): !(isWS(h.s[k]) || h.s[k] == '>')
-//@   ensures  [C17] @end (old(h.pos) + h.tokenLen < h.len ==> (isWS(h.s[old(h.pos) + h.tokenLen]) || h.s[old(h.pos) + h.tokenLen] == '>')) &&
+//@   ensures  [C17 C07] @stream streamOK(h, old(h.pos)) && tokOff(h) == old(h.pos) && potQ(h) >= old(h.pos) + 1
+//@   ensures  [C17 C07] @span forall k in [old(h.pos), old(h.pos) + h.tokenLen): !(isWS(h.s[k]) || h.s[k] == '>')
+//@   ensures  [C17 C07] @end (old(h.pos) + h.tokenLen < h.len ==> (isWS(h.s[old(h.pos) + h.tokenLen]) || h.s[old(h.pos) + h.tokenLen] == '>')) &&
 //@                 (old(h.pos) + h.tokenLen == h.len ==> h.state == h.stateEOF)
 //@   loop 1 invariant old(h.pos) <= pos && pos <= h.len && unchangedH(h)
 //@   loop 1 invariant [C17] forall k in [old(h.pos), pos): !(isWS(h.s[k]) || h.s[k] == '>')
@@ -273,7 +273,7 @@ package libinjection
 //@   rank     4
 //@   ensures  wfH(h) && h.isClose == old(h.isClose)
 //@   ensures  !result ==> h.pos == h.len && h.state == h.stateEOF
-//@   ensures  [C17] @stream result ==> streamOK(h, old(h.pos)) && potQ(h) >= old(h.pos) + 1 && h.tokenType == html5TypeAttrValue
+//@   ensures  [C17 C07] @stream result ==> streamOK(h, old(h.pos)) && potQ(h) >= old(h.pos) + 1 && h.tokenType == html5TypeAttrValue
 //@   cost     <= 3 * (cpos(h) - old(h.pos)) + 12
 
 //@ func (*h5State).stateAfterAttributeName
@@ -283,7 +283,7 @@ package libinjection
 //@   rank     6
 //@   ensures  wfH(h)
 //@   ensures  !result ==> h.pos == h.len
-//@   ensures  [C17] @stream result ==> streamOK(h, old(h.pos)) && potQ(h) >= old(h.pos) + 2
+//@   ensures  [C17 C07] @stream result ==> streamOK(h, old(h.pos)) && potQ(h) >= old(h.pos) + 2
 //@   ensures  [C15] @safe noLtEq(h) && result ==> safeState(h) && safeTok(h)
 //@   cost     <= 3 * (cpos(h) - old(h.pos)) + 56
 
@@ -295,9 +295,9 @@ package libinjection
 //@   ensures  @mono old(h.pos) <= h.pos
 //@   rank     1
 //@   ensures  result && wfH(h) && h.isClose == old(h.isClose) && h.tokenType == html5TypeAttrName
-//@   ensures  [C17] @stream streamOK(h, old(h.pos)) && tokOff(h) == old(h.pos) && h.tokenLen >= 1 && potQ(h) >= old(h.pos) + 2
-//@   ensures  [C17] @span forall k in [old(h.pos) + 1, old(h.pos) + h.tokenLen): !attrNameEnd(h.s[k])
-//@   ensures  [C17] @end (old(h.pos) + h.tokenLen < h.len ==> attrNameEnd(h.s[old(h.pos) + h.tokenLen])) &&
+//@   ensures  [C17 C07] @stream streamOK(h, old(h.pos)) && tokOff(h) == old(h.pos) && h.tokenLen >= 1 && potQ(h) >= old(h.pos) + 2
+//@   ensures  [C17 C07] @span forall k in [old(h.pos) + 1, old(h.pos) + h.tokenLen): !attrNameEnd(h.s[k])
+//@   ensures  [C17 C07] @end (old(h.pos) + h.tokenLen < h.len ==> attrNameEnd(h.s[old(h.pos) + h.tokenLen])) &&
 //@                 (old(h.pos) + h.tokenLen == h.len ==> h.state == h.stateEOF)
 //@   ensures  [C15] @eq h.state == h.stateBeforeAttributeValue ==> h.s[h.pos - 1] == '='
 //@   loop 1 invariant old(h.pos) + 1 <= pos && pos <= h.len && unchangedH(h)
@@ -315,7 +315,7 @@ package libinjection
 //@   ensures  wfH(h) && h.isClose == old(h.isClose)
 //@   ensures  old(h.pos) <= h.pos
 //@   ensures  !result ==> h.pos == h.len && h.state == old(h.state)
-//@   ensures  [C17] @stream result ==> streamOK(h, old(h.pos)) && potQ(h) >= old(h.pos) + 2
+//@   ensures  [C17 C07] @stream result ==> streamOK(h, old(h.pos)) && potQ(h) >= old(h.pos) + 2
 //@   loop 1 invariant old(h.pos) <= h.pos && h.pos <= h.len && h.state == old(h.state) && h.isClose == old(h.isClose)
 //@   loop 1 decreases h.len - h.pos
 //@   ensures  [C15] @safe noLtEq(h) && result ==> safeState(h) && safeTok(h)
@@ -329,7 +329,7 @@ package libinjection
 //@   rank     7
 //@   ensures  wfH(h) && h.isClose == old(h.isClose)
 //@   ensures  !result ==> h.pos == h.len
-//@   ensures  [C17] @stream result ==> streamOK(h, old(h.pos)) && potQ(h) >= old(h.pos) + 2
+//@   ensures  [C17 C07] @stream result ==> streamOK(h, old(h.pos)) && potQ(h) >= old(h.pos) + 2
 //@   ensures  [C15] @safe noLtEq(h) && result ==> safeState(h) && safeTok(h)
 //@   cost     <= 3 * (cpos(h) - old(h.pos)) + 56
 
@@ -341,12 +341,12 @@ package libinjection
 //@   ensures  @mono old(h.pos) <= h.pos
 //@   rank     2
 //@   ensures  result && wfH(h) && h.isClose == old(h.isClose) && h.tokenType == html5TypeAttrValue
-//@   ensures  [C17 C13] @first_terminator let b = old(h.pos) + (old(h.pos) > 0 ? 1 : 0) in
+//@   ensures  [C17 C13 C07] @first_terminator let b = old(h.pos) + (old(h.pos) > 0 ? 1 : 0) in
 //@                 tokOK(h) && tokOff(h) == b && (forall k in [b, b + h.tokenLen): h.s[k] != ch) &&
 //@                 (h.state == h.stateEOF || h.state == h.stateAfterAttributeValueQuotedState) &&
 //@                 (h.state == h.stateEOF ==> b + h.tokenLen == h.len) &&
 //@                 (h.state == h.stateAfterAttributeValueQuotedState ==> b + h.tokenLen < h.len && h.s[b + h.tokenLen] == ch && h.pos == b + h.tokenLen + 1)
-//@   ensures  [C17] @stream streamOK(h, old(h.pos)) && potQ(h) >= old(h.pos) + 1
+//@   ensures  [C17 C07] @stream streamOK(h, old(h.pos)) && potQ(h) >= old(h.pos) + 1
 //@   cost     <= cpos(h) - old(h.pos) + 3
 
 //@ func (*h5State).stateAttributeValueSingleQuote
@@ -355,7 +355,7 @@ package libinjection
 //@   ensures  @mono old(h.pos) <= h.pos
 //@   rank     3
 //@   ensures  result && wfH(h) && h.isClose == old(h.isClose) && h.tokenType == html5TypeAttrValue
-//@   ensures  [C17] @stream streamOK(h, old(h.pos)) && potQ(h) >= old(h.pos) + 1
+//@   ensures  [C17 C07] @stream streamOK(h, old(h.pos)) && potQ(h) >= old(h.pos) + 1
 //@   ensures  [C15] @safe h.state == h.stateEOF || h.state == h.stateAfterAttributeValueQuotedState
 //@   cost     <= cpos(h) - old(h.pos) + 5
 //@ func (*h5State).stateAttributeValueDoubleQuote
@@ -364,7 +364,7 @@ package libinjection
 //@   ensures  @mono old(h.pos) <= h.pos
 //@   rank     3
 //@   ensures  result && wfH(h) && h.isClose == old(h.isClose) && h.tokenType == html5TypeAttrValue
-//@   ensures  [C17] @stream streamOK(h, old(h.pos)) && potQ(h) >= old(h.pos) + 1
+//@   ensures  [C17 C07] @stream streamOK(h, old(h.pos)) && potQ(h) >= old(h.pos) + 1
 //@   ensures  [C15] @safe h.state == h.stateEOF || h.state == h.stateAfterAttributeValueQuotedState
 //@   cost     <= cpos(h) - old(h.pos) + 5
 //@ func (*h5State).stateAttributeValueBackQuote
@@ -373,7 +373,7 @@ package libinjection
 //@   ensures  @mono old(h.pos) <= h.pos
 //@   rank     3
 //@   ensures  result && wfH(h) && h.isClose == old(h.isClose) && h.tokenType == html5TypeAttrValue
-//@   ensures  [C17] @stream streamOK(h, old(h.pos)) && potQ(h) >= old(h.pos) + 1
+//@   ensures  [C17 C07] @stream streamOK(h, old(h.pos)) && potQ(h) >= old(h.pos) + 1
 //@   ensures  [C15] @safe h.state == h.stateEOF || h.state == h.stateAfterAttributeValueQuotedState
 //@   cost     <= cpos(h) - old(h.pos) + 5
 
@@ -382,7 +382,7 @@ package libinjection
 //@   requires flags in {html5FlagsDataState, html5FlagsValueNoQuote, html5FlagsValueSingleQuote, html5FlagsValueDoubleQuote, html5FlagsValueBackQuote}
 //@   modifies h.s, h.len, h.state
 //@   ensures  [C02 C13 C15 C17] wfH(h) && h.s == input && aliases(h.s, input) && h.pos == 0
-//@   ensures  [C13] @start h.state == (flags == html5FlagsDataState ? h.stateData : flags == html5FlagsValueNoQuote ? h.stateBeforeAttributeName :
+//@   ensures  [C13 C07] @start h.state == (flags == html5FlagsDataState ? h.stateData : flags == html5FlagsValueNoQuote ? h.stateBeforeAttributeName :
 //@                 flags == html5FlagsValueSingleQuote ? h.stateAttributeValueSingleQuote :
 //@                 flags == html5FlagsValueDoubleQuote ? h.stateAttributeValueDoubleQuote : h.stateAttributeValueBackQuote)
 //@   cost     <= 2
@@ -393,7 +393,7 @@ package libinjection
 //@   rank     12
 //@   ensures  wfH(h)
 //@   ensures  [C02 C17] @progress result ==> potQ(h) >= old(potQ(h)) + 1
-//@   ensures  [C17] @stream result ==> streamOK(h, old(lowB(h)))
+//@   ensures  [C17 C07] @stream result ==> streamOK(h, old(lowB(h)))
 //@   ensures  [C15] @safe noLtEq(h) && (old(safeState(h)) || old(quoteState(h))) && result ==> safeState(h) && (safeTok(h) || (h.tokenType == html5TypeAttrValue && old(quoteState(h))))
 //@   cost     <= (old(h.state == h.stateEOF) ? 4 : 3 * (cpos(h) - old(h.pos)) + 120)
 
@@ -401,8 +401,36 @@ package libinjection
 // XSS classifier
 // =====================================================================================
 
+// ---- C07: the classifier against the reference decision table
+//   ISBT / ISBA / ISBU: meanings of the three list predicates (functions of the token text)
+//@ ufun ISBT(string) bool
+//@ ufun ISBA(string) int
+//@ ufun ISBU(string) bool
+//@ spec tokText(h *h5State) string = h.tokenStart[:h.tokenLen]
+//@ spec up3(t string, a int, b int, c int) bool = up(t[0]) == a && up(t[1]) == b && up(t[2]) == c
+//@ spec six1(t string, w string, j int) bool = t[j] != 0 && up(t[j]) == w[j]
+//@ spec six(t string, w string) bool = six1(t, w, 0) && six1(t, w, 1) && six1(t, w, 2) && six1(t, w, 3) && six1(t, w, 4) && six1(t, w, 5)
+//@ spec commentFires(h *h5State) bool = hasByte(tokText(h), 0x60) ||
+//@      (h.tokenLen > 3 && ((h.tokenStart[0] == '[' && up(h.tokenStart[1]) == 'I' && up(h.tokenStart[2]) == 'F') || up3(h.tokenStart, 'X', 'M', 'L'))) ||
+//@      (h.tokenLen > 5 && (six(h.tokenStart, "IMPORT") || six(h.tokenStart, "ENTITY")))
+//@ spec fires(h *h5State, attr int) bool = h.tokenType == html5TypeDocType ||
+//@      (h.tokenType == html5TypeTagNameOpen && ISBT(tokText(h))) ||
+//@      (h.tokenType == html5TypeAttrValue && (attr == attributeTypeBlack || attr == attributeTypeStyle ||
+//@           (attr == attributeTypeAttrURL && ISBU(tokText(h))) || (attr == attributeTypeAttrIndirect && ISBA(tokText(h)) == attributeTypeBlack))) ||
+//@      (h.tokenType == html5TypeTagComment && commentFires(h))
+//@ spec na1(h *h5State, j int) bool = j < h.tokenLen && h.tokenStart[j] >= 128
+//@ spec nonAsciiHead(h *h5State) bool = na1(h, 0) || na1(h, 1) || na1(h, 2) || na1(h, 3) || na1(h, 4) || na1(h, 5)
+//@ spec memberBT(x string) bool = exists i in [0, len(blackTags)): x == blackTags[i]
+//@ spec svg3(s string) bool = up3(s, 'S', 'V', 'G')
+//@ spec xsl3(s string) bool = up3(s, 'X', 'S', 'L')
 //@ func isBlackTag
 //@   modifies nothing
+//@   justify  pureOfParams
+//@   defines  [C07] @isbt result == ISBT(s)
+//@   ensures  [C07] @list_member len(s) >= 3 && memberBT(local(sUpperWithoutNulls)) ==> result
+//@   ensures  [C07] @reference_svg_xsl (len(s) >= 3 && (svg3(s) || xsl3(s)) ==> result) &&
+//@                 (result ==> len(s) >= 3 && (memberBT(local(sUpperWithoutNulls)) || svg3(s) || xsl3(s)))
+//@   loop 1 invariant [C07] forall j in [0, i): local(sUpperWithoutNulls) != blackTags[j]
 //@   loop 1 invariant 0 <= i && i <= len(blackTags)
 //@   loop 1 decreases len(blackTags) - i
 //@   cost     <= 4 * len(s) + 64 * len(blackTags) + 40
@@ -410,6 +438,11 @@ package libinjection
 
 //@ func isBlackAttr
 //@   modifies nothing
+//@   justify  pureOfParams
+//@   defines  [C07] @isba result == ISBA(s)
+//@   ensures  [C07] @reference_xmlns_prefix len(s) >= 5 && (forall j in [0, 5): s[j] != 0 && s[j] < 128) &&
+//@                 ((up(s[0]) == 'X' && up(s[1]) == 'M' && up(s[2]) == 'L' && up(s[3]) == 'N' && up(s[4]) == 'S') ||
+//@                  (up(s[0]) == 'X' && up(s[1]) == 'L' && up(s[2]) == 'I' && up(s[3]) == 'N' && up(s[4]) == 'K')) ==> result == attributeTypeBlack
 //@   ensures  [C02] @range attributeTypeNone <= result && result <= attributeTypeAttrIndirect
 //@   loop 1 invariant -1 <= rangeindex && rangeindex < len(blackEvents)
 //@   loop 1 decreases len(blackEvents) - rangeindex
@@ -466,9 +499,12 @@ package libinjection
 //@   loop 1 decreases length
 //@   cost     <= 8 * len(b) + len(a) + 8
 //@   loop 1 invariant [C09] $cost <= 6 * pos + (firstAbs(arr(b), off(b) + pos, off(b) + len(b), '&') - (off(b) + pos)) && len(bs) <= pos
+//@   ensures  [C07] @reference_prefix result ==> len(local(bs)) >= len(a) && (forall j in [0, len(a)): local(bs)[j] == a[j])
 
 //@ func isBlackURL
 //@   modifies nothing
+//@   justify  pureOfParams
+//@   defines  [C07 C19] @isbu result == ISBU(s)
 //@   loop 1 invariant -1 <= rangeindex && rangeindex < 4
 //@   loop 1 decreases 4 - rangeindex
 //@   cost     <= 40 * len(s) + 200
@@ -480,6 +516,9 @@ package libinjection
 //@   requires flags in {html5FlagsDataState, html5FlagsValueNoQuote, html5FlagsValueSingleQuote, html5FlagsValueDoubleQuote, html5FlagsValueBackQuote}
 //@   modifies nothing
 //@   ensures  [C15] @no_lt_eq (forall i in [0, len(input)): input[i] != '<' && input[i] != '=') ==> !result
+//@   ensures  [C07] @fire result ==> fires(local(h5), local(attr)) || nonAsciiHead(local(h5))
+//@   loop 1 step [C07] @nofire !fires(h5, athead(attr))
+//@   loop 1 step [C07 C19] @attr attr == (h5.tokenType == html5TypeAttrName ? ISBA(tokText(h5)) : attributeTypeNone)
 //@   loop 1 invariant wfH(h5) && aliases(h5.s, input)
 //@   loop 1 invariant [C15] noLtEq(h5) ==> (safeState(h5) || quoteState(h5)) && (quoteState(h5) ==> attr == attributeTypeNone)
 //@   loop 1 decreases [C02 C17] h5.len + 1 - potQ(h5)
